@@ -199,6 +199,9 @@ func snapshot(v any) string {
 var c02OverlapObj = []string{".", ".a", ".a.b", ".a.c", ".a.c[0]", ".a.c[1]", ".a.c[0:1]", ".a.c[1:]", ".a.c[:2]", ".a.c[0:2][1]", ".a.c[]", ".b", ".a.c[-1]", ".a[]", ".a.c[0:1][1]"}
 var c02OverlapArr = []string{".", ".[0]", ".[2]", ".[0:1]", ".[0:2]", ".[1:]", ".[0:2][1]", ".[0:1][1]", ".[]", ".[-1]", ".[1:][0]", ".[3]", ".[0:2][0:1]", ".[1:3][0]", ".[0:2][3]", ".[1:2.5]", ".[:1.2][]", ".[0.5:1.5]"}
 
+// ancestor/descendant chains of depth 3 reached through negative and positive indices (the same location under two spellings)
+var c02OverlapDeep = []string{".", ".[-1]", ".[-1][0]", ".[-1][0][0]", ".[0]", ".[0][0]", ".[0][-1]", ".[-1][-1]", ".[-1][-1][-1]", ".[0][0][0]", ".[-1][0:1]", ".[-1][]", ".a[-1]", ".a[-1][-1]", ".[-2]"}
+
 func c02AllPaths(v any) [][]any {
 	var out [][]any
 	var rec func(v any, p []any)
@@ -334,10 +337,11 @@ func c02Run(c *engine.Ctx) {
 	fams := []fam{
 		{c02OverlapObj, []any{univ.J(`{"a":{"b":1,"c":[1,2,3]},"b":2}`), univ.J(`{"a":{"c":[]}}`), nil}},
 		{c02OverlapArr, []any{univ.J(`[1,2,3]`), univ.J(`[[1],[2],[3],[4]]`), univ.J(`[]`), nil}},
+		{c02OverlapDeep, []any{univ.J(`[[[0]]]`), univ.J(`[[[0],[1]],[[2],3]]`), univ.J(`{"a":[[0]]}`)}},
 	}
-	obodies := []string{".", "[.]", "7", "empty", "{c: ., d: .}", "(., 1)"}
+	obodies := []string{".", "[.]", "7", "empty", "{c: ., d: .}", "(., 1)", "[., .]"}
 	if quick {
-		obodies = []string{"[.]", "7", "empty"}
+		obodies = []string{"[.]", "7", "empty", "[., .]"}
 	}
 	idx = 0
 	for _, f := range fams {
@@ -521,7 +525,7 @@ func init() {
 	engine.Register(&engine.Check{
 		ID:    "C02",
 		Level: "model_checking",
-		Rule: "every path expression of the path-safe grammar (bounded by node count) x 14 inputs (4 with aliased Go structure) for the path/getpath law; every path expression (<=2, thorough 3 nodes) x 5 update operators x 10 update bodies x 10 inputs, and every ordered pair (thorough: every ordered triple) of 15 overlapping paths per family x 3 operators x bodies, each compared (a) with the reference model whose update operators are pure-Go always-copy folds of setpath/getpath/delpaths over the model's own path enumeration and (b) with the defining reduction written as jq text and run in-engine; " +
+		Rule: "every path expression of the path-safe grammar (bounded by node count) x 14 inputs (4 with aliased Go structure) for the path/getpath law; every path expression (<=2, thorough 3 nodes) x 5 update operators x 10 update bodies x 10 inputs, and every ordered pair (thorough: every ordered triple) of 15-18 overlapping paths per family (object, array, depth-3 chains through negative indices) x 3 operators x bodies, each compared (a) with the reference model whose update operators are pure-Go always-copy folds of setpath/getpath/delpaths over the model's own path enumeration and (b) with the defining reduction written as jq text and run in-engine; " +
 			"jq-defined path consumers interpreted from builtin.jq; setpath non-interference for all incomparable path pairs; 15 computed sources x 9 path contexts for the invalid-path law; every case also checks that the input (incl. spare capacity) is unchanged and the result acyclic.",
 		Assume: []string{"refjq's RefGetpath/RefSetpath/RefDelpaths (value semantics, deletions resolved against the original) are the oracle", "heap address reuse by the allocator after GC is outside the explored space"},
 		Run:    c02Run, Replay: c02Replay,
